@@ -6,6 +6,7 @@ import (
 	"encoding/hex"
 	"fmt"
 	"mosn.io/mosn/pkg/mosn"
+	"mosn.io/mosn/pkg/server"
 	"os"
 	"runtime"
 	"strings"
@@ -60,6 +61,7 @@ type ProxyParams struct {
 	BoltGoAway   bool         // C11: the bolt listener announces the stop with a go-away frame (enable_bolt_goaway)
 	LocalErr     bool         // some requests ask for a service that has no route, or whose cluster has no host: MOSN answers itself
 	UpIdleS      int          // cluster idle_timeout in seconds (0 = not configured): MOSN closes idle upstream connections itself
+	EarlyDrain   bool         // C11: a listener nobody uses was deleted (and drained) more than the drain time before the workload starts
 	NoRoutesYet  bool         // the listener's router configuration exists but has no virtual hosts yet (route discovery pending): every request gets MOSN's own reply
 	GoAwayHeavy  bool         // bolt upstreams announce go-away on a quarter of their exchanges (C09/C03/C10 arms)
 	H2Stream     bool         // HTTP/2: the proxy forwards in stream mode (http2_use_stream: header block and body chunks as they come)
@@ -225,6 +227,7 @@ func DrawProxyParams(ch *sim.Choices, prop string) ProxyParams {
 		p.NConns = 1 + ch.Pick("params", "nconns11", 4)
 		p.BoltGoAway = ch.Bool("params", "boltgoaway")
 		p.TwoListeners = ch.Bool("params", "twolisteners")
+		p.EarlyDrain = p.TwoListeners && ch.Chance("params", "earlydrain", 1, 3)
 		// one-way requests among the others (they are never waited for, and must not disturb the count of
 		// those that are)
 		p.Oneway = (p.Proto == "bolt" || p.Proto == "boltv2" || p.Proto == ppName) && ch.Chance("params", "oneway11", 1, 3)
@@ -508,7 +511,16 @@ func (w *Proxy) listeners(lis J) []J {
 	}
 	first["name"], first["address"] = "lfirst", lisAddr2
 	w.S.Fault("w:two_listeners")
-	return []J{first, lis}
+	out := []J{first, lis}
+	if w.P.EarlyDrain {
+		extra := J{}
+		for k, v := range lis {
+			extra[k] = v
+		}
+		extra["name"], extra["address"] = "lgone", "127.0.0.1:2047"
+		out = append(out, extra)
+	}
+	return out
 }
 
 const lisAddr2 = "127.0.0.1:2046"
@@ -668,6 +680,15 @@ func (w *Proxy) Setup() error {
 		return err
 	}
 	w.mosn = m
+	if p.EarlyDrain {
+		// a listener is deleted (its drain finds nothing to wait for) and more than the drain time passes
+		// before the workload begins: the process has a drain behind it when the stop request comes
+		server.SetDrainTime(time.Duration(p.DrainMs) * time.Millisecond)
+		_ = server.GetListenerAdapterInstance().DeleteListener("", "lgone")
+		time.Sleep(time.Duration(p.DrainMs)*time.Millisecond + 1500*time.Millisecond)
+		s.Rebase()
+		s.Fault("w:earlier_drain_in_this_process")
+	}
 	if p.ShutdownMs > 0 {
 		w.scheduleShutdown()
 	}
